@@ -775,7 +775,11 @@ class TLSConnection(TLSRecordLayer):
                 not_in_sig_list = tls12_sig_list_set.difference(sig_list_set)
                 sig_list.extend(i for i in tls12_sig_list if i in not_in_sig_list)
 
-            assert sig_list
+            if not sig_list:
+                # e.g. only DSA hashes enabled together with TLS 1.3 only
+                raise ValueError("No signature algorithm enabled in settings "
+                                 "is usable with the enabled protocol "
+                                 "versions")
             extensions.append(SignatureAlgorithmsExtension().\
                               create(sig_list))
         # if we know any protocols for ALPN, advertise them
